@@ -105,7 +105,7 @@ class Corrupt(Machine):
             "buffer": s.choice([8, 64, 512, 8192, 65536]),
             "raw_max_read": s.choice([0, 0, 1, 7, 64, 4096]),
             "raw_max_write": s.choice([0, 0, 5, 64, 4096]),
-            "fast_stack": not s.chance(0.05),
+            "fast_stack": not s.chance(0.1),
             "clock": s.choice(["advancing", "frozen", "coarse"]),
             "faults_enabled": False,  # the faults of this machine are rot specs inside the ops
         }
@@ -122,8 +122,10 @@ class Corrupt(Machine):
             fams = list(FAMILIES)
             s.shuffle(fams)
             for fam in fams:
-                if exhaustive and fam != "random":
+                if exhaustive and fam != "random" and swarm["fast_stack"]:
                     count = None
+                elif not swarm["fast_stack"]:
+                    count = 6  # the un-seamed inspect population only shows that the seam hides nothing; keep it short
                 else:
                     count = s.choice([20, 40, 80]) if tier == "quick" else s.choice([100, 300, 600])
                 ops.append({"kind": "sweep", "i": len(ops), "env": f"env{e}", "family": fam, "count": count,
@@ -256,6 +258,12 @@ class Corrupt(Machine):
         data = model["envs"][name]
         specs, exhaustive = self._specs(op, data)
         ex = model["_extra"]
+        if op["family"] == "nesting":
+            sv = self._scaling(host, model, op, data)  # before the sweep: a super-linear parser would starve it
+            if sv:
+                model["_last_outcome"] = "scaling"
+                model["_abstract"] = ("nesting", "scaling-violation")
+                return sv
         vs = []
         seen = set()
         distinct = model.setdefault("_distinct", set())
@@ -354,6 +362,71 @@ class Corrupt(Machine):
         if sum(hist.values()) > 0:
             model["_nontrivial"] = True
         return vs
+
+    def _scaling(self, host, model, op, data):
+        """'Time proportional to the input size', checked directly on the parser's step count s(d) for a command
+        sequence nested d = 10, 20, 40 levels deep (each level adds the same few bytes): for a linear parser the
+        increments double, (s40 - s20) / (s20 - s10) = 2; a cost that grows with the *product* of added nodes and stack
+        depth pushes the ratio towards 4.  Differences are used so the large constant part of the parse cancels."""
+        t = rot.build(data)
+        if t is None:
+            return []
+        wraps = rot.sequence_paths(t)
+        if not wraps:
+            return []
+        s = Stream(op["gen"], "scaling")
+        ex = model["_extra"]
+        for path in [list(p) for p in s.sample(wraps, min(4, len(wraps)))]:
+            vs = self._scaling_at(host, model, op, data, path, ex)
+            if vs is not None:
+                return vs
+        return []
+
+    def _scaling_at(self, host, model, op, data, path, ex):
+        """None when the node at path does not accept nested sequences (nothing measured)."""
+        counter = StepCounter()
+        steps = {}
+        try:
+            with Seams(host.disk, host.entropy, host.clock, host.fast_stack, False, host.rare):
+                from suit_generator.suit.envelope import SuitEnvelopeTagged
+
+                for how in ("try", "run"):
+                    for d in (10, 20, 40):
+                        bad = rot.apply(data, {"k": "nest_seq", "path": path, "how": how, "depth": d})
+                        counter.start(limit=400_000_000)
+                        try:
+                            SuitEnvelopeTagged.from_cbor(bad).to_obj()
+                        except SimHang:
+                            steps[(how, d)] = None
+                        except BaseException as e:  # noqa: B036 - the type is judged by the sweep, not here
+                            if isinstance(e, KeyboardInterrupt):
+                                raise
+                        n = counter.stop()
+                        steps.setdefault((how, d), n)
+        finally:
+            counter.close()
+        for how in ("try", "run"):
+            s10, s20, s40 = steps.get((how, 10)), steps.get((how, 20)), steps.get((how, 40))
+            ex["scaling_triples"] = ex.get("scaling_triples", 0) + 1
+            if None in (s10, s20, s40):
+                v = violation("C17", "step-bound", op["i"], f"{how}-sequence nesting <= 40: more than 4e8 line events", cls="steps")
+                v["rot"] = {"k": "nest_seq", "path": path, "how": how, "depth": 40}
+                return [v]
+            d1, d2 = s20 - s10, s40 - s20
+            if d1 <= 200:
+                return None
+            if d1 > 200:
+                measured = True
+                r = d2 / d1
+                if r > ex.get("max_increment_ratio_on_depth_doubling", 0):
+                    ex["max_increment_ratio_on_depth_doubling"] = round(r, 2)
+                if r > 2.8:
+                    v = violation("C17", "time-proportional-to-input", op["i"],
+                                  f"{how}-sequence nesting 10/20/40: parser steps {s10}/{s20}/{s40}, increments {d1} then {d2} "
+                                  f"(ratio {r:.2f}; 2 for a linear parser, 4 for a quadratic one)", cls="steps")
+                    v["rot"] = {"k": "nest_seq", "path": path, "how": how, "depth": 40}
+                    return [v]
+        return []
 
     def _rot_cli(self, host, model, op):
         """The damaged file is read back through the CLI and the disk seam."""
